@@ -10,8 +10,14 @@
 (* The input is the record `inp` chosen by Init and never changed:                                        *)
 (*   inp.files  sequence of [ino, root, len, pk, sk, ck]: identity, isolate root (0 = none), length, and   *)
 (*              the classes of the three windows the code hashes: pk of bytes [0, P) when len <= P else   *)
-(*              [0, Pm); sk of the last min(S, len) bytes; ck of the whole file.  The ideal hash of a      *)
-(*              window is its class; "up to hash collisions" is exactly this idealisation.                *)
+(*              [0, Pm); sk of the last min(S, len) bytes; ck of the whole file.  A class is an "atom":    *)
+(*              equal atoms <=> equal byte strings, in ONE name space for all windows.  The ideal hash of *)
+(*              a window is its atom ("up to hash collisions" is exactly this idealisation), and a hash   *)
+(*              value is a SET of atoms with XOR = symmetric difference, because the suffix stage         *)
+(*              combines `old_hash ^ new_hash`: a file whose suffix window repeats its prefix window      *)
+(*              gets the hash {} = 0, and (a, b) collides with (b, a).  Validation of real traces found    *)
+(*              exactly such merged candidate groups after the suffix stage; the contents stage splits    *)
+(*              them again, so only --skip-content-hash is affected (see SoundSkipIdeal).                  *)
 (*   inp.cfg    [kind, rf, isolate, matchLinks, skipContent, P, T]                                        *)
 (*   inp.bad    set of identities whose reads fail (C15)                                                  *)
 (* MC_Grouping derives pk/sk/ck from explicit byte strings, so that the window arithmetic itself (which   *)
@@ -21,7 +27,7 @@
 EXTENDS Partition, TLC
 
 VARIABLES inp,     \* the input (constant along a behaviour)
-          stage,   \* "size" | "prefix" | "suffix" | "contents" | "done"
+          stage,   \* "size" | "prefix" | "suffix" | "contents" | "filter" | "done"
           phase,   \* "begin" | "tasks"          (inside a rehash stage)
           groups,  \* set of [len, hash, files]: the candidate groups between stages
           todo,    \* runs still to hash: set of [len, old, ino, files]
@@ -47,19 +53,24 @@ Uniq(S) == Cardinality({File(f).ino : f \in S})                                 
 Pre(s, g) == CASE s = "prefix" -> Uniq(g.files) > 1
                [] s = "suffix" -> g.len >= Cfg.T /\ Uniq(g.files) > 1
                [] s = "contents" -> Uniq(g.files) > 1 /\ g.len >= Cfg.P
-Post(s, g) == IF s = "contents" THEN Strictly(g.files) ELSE Matches(g.files)
-NewHash(s, f, old) == CASE s = "prefix" -> <<File(f).pk>>
-                        [] s = "suffix" -> old \o <<File(f).sk>>                   \* old_hash ^ new_hash
-                        [] s = "contents" -> <<File(f).ck>>
 After(s) == CASE s = "size" -> "prefix" [] s = "prefix" -> "suffix"
-              [] s = "suffix" -> (IF Cfg.skipContent THEN "done" ELSE "contents")
+              [] s = "suffix" -> (IF Cfg.skipContent THEN "filter" ELSE "contents")
               [] s = "contents" -> "done"
+\* every stage but the last applies the permissive filter (always true for --rf-under / --unique); the contents stage the
+\* strict one.  With --skip-content-hash the suffix stage is the last hashing stage and a separate FinalFilter step
+\* applies the strict filter: before fix c637788 the code lacked that step - TLC reported FilterHonoured violated for
+\* kind = "under" (two identical files listed as `unique`) and the real binary confirmed it.
+Post(s, g) == IF s = "contents" THEN Strictly(g.files) ELSE Matches(g.files)
+Xor(a, b) == (a \ b) \cup (b \ a)
+NewHash(s, f, old) == CASE s = "prefix" -> {File(f).pk}
+                        [] s = "suffix" -> Xor(old, {File(f).sk})                 \* old_hash ^ new_hash
+                        [] s = "contents" -> {File(f).ck}
 
 Init0 == /\ stage = "size" /\ phase = "begin" /\ groups = {} /\ todo = {} /\ got = {} /\ pass = {}
 
 \* group_by_size + remove_same_files (paths are distinct in the model)
 BySize == /\ stage = "size"
-          /\ groups' = {g \in {[len |-> l, hash |-> <<>>, files |-> {f \in Paths : File(f).len = l}] : l \in {File(f).len : f \in Paths}} :
+          /\ groups' = {g \in {[len |-> l, hash |-> {}, files |-> {f \in Paths : File(f).len = l}] : l \in {File(f).len : f \in Paths}} :
                            Matches(g.files)}
           /\ stage' = "prefix" /\ UNCHANGED <<inp, phase, todo, got, pass>>
 
@@ -81,21 +92,33 @@ End == /\ phase = "tasks" /\ todo = {}
        /\ stage' = After(stage) /\ phase' = "begin" /\ got' = {} /\ pass' = {}
        /\ UNCHANGED <<inp, todo>>
 
-Next0 == BySize \/ Begin \/ (\E r \in todo : Task(r)) \/ End
+FinalFilter == /\ stage = "filter"
+               /\ groups' = {g \in groups : Strictly(g.files)}
+               /\ stage' = "done" /\ UNCHANGED <<inp, phase, todo, got, pass>>
+
+Next0 == BySize \/ Begin \/ (\E r \in todo : Task(r)) \/ End \/ FinalFilter
 
 \* ---- the declarative meaning
 Good == {f \in Paths : File(f).ino \notin inp.bad}
 SameContent(a, b) == File(a).len = File(b).len /\ File(a).ck = File(b).ck
-SameEnds(a, b) == File(a).len = File(b).len /\ File(a).pk = File(b).pk /\ (File(a).len >= Cfg.T => File(a).sk = File(b).sk)
+EndsHash(f) == IF File(f).len >= Cfg.T THEN Xor({File(f).pk}, {File(f).sk}) ELSE {File(f).pk}
+SameEnds(a, b) == File(a).len = File(b).len /\ EndsHash(a) = EndsHash(b)
+SameEndsIdeal(a, b) == File(a).len = File(b).len /\ File(a).pk = File(b).pk /\ (File(a).len >= Cfg.T => File(a).sk = File(b).sk)
 ClassOf(f, S) == {x \in S : SameContent(f, x)}
 Classes(S) == {ClassOf(f, S) : f \in S}
 
-TypeOK == /\ stage \in {"size", "prefix", "suffix", "contents", "done"} /\ phase \in {"begin", "tasks"}
+TypeOK == /\ stage \in {"size", "prefix", "suffix", "contents", "filter", "done"} /\ phase \in {"begin", "tasks"}
           /\ \A g \in groups : g.files \subseteq Paths /\ g.files # {} /\ \A f \in g.files : File(f).len = g.len
           /\ \A g, h \in groups : g # h => g.files \cap h.files = {}
 \* C01: a reported group holds only byte-identical files (hard links of one file are identical by nature)
 Sound == stage = "done" /\ ~Cfg.skipContent => \A g \in groups : \A a, b \in g.files : SameContent(a, b)
 SoundSkip == stage = "done" /\ Cfg.skipContent => \A g \in groups : \A a, b \in g.files : File(a).ino = File(b).ino \/ SameEnds(a, b)
+\* what one would expect of the dangerous mode; FALSE for the code because of the XOR (not an invariant, kept to show it)
+SoundSkipIdeal == stage = "done" /\ Cfg.skipContent => \A g \in groups : \A a, b \in g.files : File(a).ino = File(b).ino \/ SameEndsIdeal(a, b)
+EndsClasses(S) == {{x \in S : SameEndsIdeal(f, x)} : f \in S}
+\* the dangerous mode still never loses or splits a class of files that agree in both windows
+CompleteSkip == stage = "done" /\ Cfg.skipContent /\ inp.bad = {} /\ Cfg.kind = "over" =>
+                   \A C \in EndsClasses(Paths) : Strictly(C) => \E g \in groups : C \subseteq g.files
 \* C03/C06: with every file readable, the report is exactly the set of qualifying content classes
 Complete == stage = "done" /\ ~Cfg.skipContent /\ inp.bad = {} => {g.files : g \in groups} = {C \in Classes(Paths) : Strictly(C)}
 \* C03 "never silently dropped at any stage": identical readable files of a qualifying class stay together in every candidate set
